@@ -432,7 +432,12 @@ func (wr *warcRecord) parseBlock(reader io.Reader, validation *Validation) (err 
 		}
 	}
 
-	wr.block = newGenericBlock(wr.opts, reader, blockDigest)
+	block := newGenericBlock(wr.opts, reader, blockDigest)
+	if wr.recordType == Resource {
+		// The payload of a resource record is the block itself
+		block.payloadDigest = payloadDigest
+	}
+	wr.block = block
 	return
 }
 
@@ -476,8 +481,8 @@ func (wr *warcRecord) ValidateDigest(validation *Validation) error {
 	switch v := wr.Block().(type) {
 	case *genericBlock:
 		blockDigest = v.blockDigest
-		if wr.recordType == Resource {
-			payloadDigest = blockDigest
+		if v.payloadDigest != nil {
+			payloadDigest = v.payloadDigest
 		}
 	case *httpRequestBlock:
 		blockDigest = v.blockDigest
